@@ -30,7 +30,7 @@ ASSUMPTIONS = [
     "depth_m = depth_ft x 0.3048 is compared within 4 ulp",
 ]
 REQUIRED = ["json_exports", "json_integer_header_values", "json_text_curves", "json_nan_header_values", "json_object_curves_with_nan", "csv_exports", "csv_records_checked",
-            "excel_exports", "excel_text_curves", "df_roundtrips", "df_roundtrips_with_stale_suffixes", "depth_unit_cases", "depth_conflict_cases", "depth_unrecognised_cases", "depth_cases_mnemonic_case_lower", "depth_cases_mnemonic_case_preserve"]
+            "excel_exports", "excel_text_curves", "df_roundtrips", "df_roundtrips_with_stale_suffixes", "exports_repeated_after_in_place_edits", "depth_unit_cases", "depth_conflict_cases", "depth_unrecognised_cases", "depth_cases_mnemonic_case_lower", "depth_cases_mnemonic_case_preserve"]
 SOFT_DEADLINE = {"quick": 100, "thorough": 1500}
 LEVEL_TEXT = "Exploration with independent readers of every export format as oracles over generated and corpus objects."
 LEVEL_NOTE = "Trusts json/csv/openpyxl/pandas as readers; export options outside the listed sets are not covered."
@@ -116,7 +116,23 @@ def run_case(case, ctx):
         ctx.count("objects_not_buildable")
         ctx.seen("build_failures", type(e).__name__)
         return
-    {"json": run_json, "csv": run_csv, "excel": run_excel, "df": run_df}[kind](case, ctx, las)
+    runner = {"json": run_json, "csv": run_csv, "excel": run_excel, "df": run_df}[kind]
+    runner(case, ctx, las)
+    if case.get("seed", 0) % 2 == 1 and len(las.curves) >= 2:
+        # the same object later in its life: samples edited in place and a header value changed after the first export -
+        # the second export must show the object as it is now (every exporter is compared with the live object)
+        edited = 0
+        for c in list(las.curves)[1:]:
+            d = c.data
+            if isinstance(d, np.ndarray) and d.dtype.kind == "f" and len(d):
+                d[0] = 4321.5 + edited
+                d[-1] = float("nan")
+                edited += 1
+        if len(las.params):
+            las.params[0].value = 77
+        if edited:
+            ctx.count("exports_repeated_after_in_place_edits")
+            runner(dict(case, after_edit=True), ctx, las)
 
 
 def typemix(las):
